@@ -1,11 +1,14 @@
 (** Property C13 — ordered lists are linearizable sets / maps and no key is ever present twice.
-    Only statements here; proofs live in LV.Proofs.MichaelList*.
+    Only statements here; proofs live in LV.Proofs.MichaelList* and LV.Proofs.LazyList*.
 
-    Scope of the theorems: the step model LV.Model.MichaelList of cds::intrusive::MichaelList<cds::gc::HP>
+    Scope of the theorems: the step models LV.Model.MichaelList of cds::intrusive::MichaelList<cds::gc::HP>
     (cds/intrusive/impl/michael_list.h: search with helping, link_node, unlink_node, insert_at, update_at, erase_at,
-    unlink_at, extract_at, find_at, get_at), tied to the real code by step correspondence on every run of
-    `bin/check C13`.  Every other variant of the property (LazyList, IterableList, cds::container wrappers, kv-lists,
-    DHP / RCU / nogc) is covered by observable correspondence only (real histories decided by the verified lincheck).
+    unlink_at, extract_at, find_at, get_at) and LV.Model.LazyList of cds::intrusive::LazyList<cds::gc::HP>
+    (cds/intrusive/impl/lazy_list.h: search, position locks, validate, link_node, unlink_node and the same ten
+    operations), both tied to the real code by step correspondence on every run of `bin/check C13`.  Every other
+    variant of the property (IterableList, cds::container wrappers, kv-lists, DHP / RCU / nogc) is covered by
+    observable correspondence only (real histories decided by the verified lincheck).  For IterableList (step model
+    with step correspondence) the property is REFUTED below.
 
     MEMORY SAFETY IS A HYPOTHESIS ([smr_safe], DESIGN 4): the model allocates node ids from a never-reusing
     allocator and a retired node stays readable; that no node is recycled while a guard can reach it is the
@@ -14,7 +17,8 @@ From Coq Require Import ZArith List String.
 From LV Require Import Base.Conc Base.Events Base.Lin Spec.Specs.
 From LV Require Import Model.MichaelList Proofs.MichaelListBase Proofs.MichaelListInv Proofs.MichaelListProofs
                        Proofs.MichaelListFullProofs.
-From LV Require Model.LazyList Model.IterList Proofs.LazyListDefs Proofs.IterListDefs Proofs.LazyListProofs.
+From LV Require Model.LazyList Model.IterList Proofs.LazyListDefs Proofs.IterListDefs Proofs.LazyListProofs
+                Proofs.LazyListLinProofs Proofs.IterListRefute.
 Import ListNotations.
 Local Open Scope Z_scope.
 
@@ -90,14 +94,59 @@ Theorem C13_lazy_sorted_nodup :
 Proof. exact LazyListProofs.lazy_sorted_nodup. Qed.
 Print Assumptions C13_lazy_sorted_nodup.
 
-(** NOT PROVED (statement only): IterableList.  Its step model LV.Model.IterList is tied to the real code by step
-    correspondence (checks/C13.py) and its real histories are decided by the verified lincheck, but no invariant
-    proof exists yet: it needs the neighbour-marking protocol of link_data (both data cells frozen) and the
-    find_prev re-check against ABA on a null predecessor. *)
+(** LazyList, PARTIAL linearizability (modifying operations only; same history function [upd_hist] as for MichaelList):
+    for every schedule there is an LP-annotated trace, valid for the sequential set specification, whose history is
+    the invoke/response history of the operations that modified the list (pending ones included).  Linearization
+    points: the second store of link_node (insert, inserting update) and the marking store of unlink_node (erase,
+    unlink, extract), both executed while the spin locks of predecessor and current node are held and after
+    validate() succeeded; each of these operations returns what the specification gives at that point.
+    NOT covered: the position of failed operations and of contains / find / get.  For LazyList that needs helping
+    (a wait-free contains that returns false on a marked node linearizes inside the other thread's marking store),
+    which the "last own observation" argument used for MichaelList cannot express. *)
+Theorem C13_lazy_updates_linearizable_partial :
+  forall (fuel sf : nat) (ic : bool) (ths : list (list (list Z))) c,
+    Conc.reach (LazyList.init_cfg fuel sf ic ths) c ->
+    exists atr, lp_valid SetSpec atr /\ erase atr = upd_hist (Conc.trace c).
+Proof. exact LazyListLinProofs.lazy_updates_linearizable_partial. Qed.
+Print Assumptions C13_lazy_updates_linearizable_partial.
+
+Theorem C13_lazy_updates_history_linearizable :
+  forall (fuel sf : nat) (ic : bool) (ths : list (list (list Z))) c,
+    Conc.reach (LazyList.init_cfg fuel sf ic ths) c ->
+    linearizable SetSpec (upd_hist (Conc.trace c)).
+Proof. exact LazyListLinProofs.lazy_updates_linearizable_partial'. Qed.
+Print Assumptions C13_lazy_updates_history_linearizable.
+
+(** IterableList: the property is FALSE, for the step model LV.Model.IterList (tied to the real code by step
+    correspondence) and for the real cds::intrusive::IterableList<gc::HP> (the same programs and schedule are run on
+    the real list by `bin/check C13`, corpus/C13/iter_null_prev_aba.json: known finding
+    iterlist-null-prev-aba-find-prev-stale).  link_data() re-uses an empty predecessor node after
+    find_prev( pHead, val ) returned that node ("ABA check for a null prev"), but find_prev walks nodes that are not
+    frozen, so a node it has already passed can be re-used by another insert for a larger key.  Four threads
+    (IterListRefute.aba_threads), one explicit schedule: a reachable configuration whose traversal yields the keys
+    12, 10, 20, and one in which thread 1 got insert( 10 ) = true, contains( 10 ) = false, insert( 10 ) = true and the
+    traversal yields 10, 12, 10, 20 (the key 10 is present twice). *)
 Definition iter_sorted_nodup_statement : Prop :=
   forall (fuel sf : nat) (ic : bool) (ths : list (list (list Z))) c,
     Conc.reach (IterList.init_cfg fuel sf ic ths) c ->
     LazyListDefs.increasing (IterListDefs.iter_keys (Conc.shared c)).
+
+Theorem C13_iter_sorted_nodup_refuted : ~ iter_sorted_nodup_statement.
+Proof. exact IterListRefute.iter_sorted_nodup_refuted. Qed.
+Print Assumptions C13_iter_sorted_nodup_refuted.
+
+Theorem C13_iter_order_violation_reachable :
+  exists c, Conc.reach (IterList.init_cfg 64 400 false IterListRefute.aba_threads) c /\
+            IterListDefs.iter_keys (Conc.shared c) = [12; 10; 20].
+Proof. exact IterListRefute.iter_order_violation_reachable. Qed.
+Print Assumptions C13_iter_order_violation_reachable.
+
+Theorem C13_iter_duplicate_key_reachable :
+  exists c, Conc.reach (IterList.init_cfg 64 400 false IterListRefute.aba_threads) c /\
+            IterListDefs.iter_keys (Conc.shared c) = [10; 12; 10; 20] /\
+            IterListRefute.rets_of 1 (Conc.trace c) = [[1; 0]; [0; 0]; [1; 0]].
+Proof. exact IterListRefute.iter_duplicate_key_reachable. Qed.
+Print Assumptions C13_iter_duplicate_key_reachable.
 
 (** non-vacuity: a concrete 2-thread run (item counter on) with contended CASes in which inserts, an inserting
     update, an erase and an extract succeed, an update finds its key, an unlink of a foreign item fails; it
@@ -123,13 +172,15 @@ Proof.
   vm_compute. repeat split; reflexivity.
 Qed.
 
-(** sanity of the two unproved statements on one concrete run each (a test, not a theorem): the same programs and
-    schedule on the LazyList and IterableList models; the walks are strictly increasing at the end. *)
+(** non-vacuity of the LazyList theorems (and the same run on the IterableList model) on one concrete run each:
+    the same programs and schedule on the LazyList and IterableList models; the walks are strictly increasing at the
+    end and the LazyList history of modifying operations has 10 events and is accepted by the verified checker. *)
 Example C13_lazy_iter_statements_sample :
   let cl := fst (Conc.run 5000 0 ex_sched (LazyList.init_cfg 64 400 true ex_threads)) in
   let ci := fst (Conc.run 5000 0 ex_sched (IterList.init_cfg 64 400 true ex_threads)) in
   LazyListDefs.increasingb (LazyListDefs.lazy_keys (Conc.shared cl)) = true /\
   LazyListDefs.lazy_keys (Conc.shared cl) = [3] /\
+  List.length (upd_hist (Conc.trace cl)) = 10%nat /\ lincheck SetSpec (upd_hist (Conc.trace cl)) = true /\
   LazyListDefs.increasingb (IterListDefs.iter_keys (Conc.shared ci)) = true /\
   IterListDefs.iter_keys (Conc.shared ci) = [3].
 Proof. vm_compute. repeat split; reflexivity. Qed.
